@@ -303,6 +303,15 @@ class NS:
             self._extra[name] = self._ex.fresh_param(self._st, "wit." + name, ty)
         return self._extra[name]
 
+    def ghostfn(self, name, argsorts, ressort):
+        """uninterpreted ghost FUNCTION of a contract (e.g. a partial-sum function defined by recursion in the
+        contract's `defs`): one fixed symbol while the function itself is verified, a fresh symbol per call site"""
+        key = "fn:" + name
+        if key not in self._extra:
+            tag = name if self._ex.in_verify_ns(self) else "%s!%d" % (name, next(_ids))
+            self._extra[key] = z3.Function(tag, *[sort_of(a) for a in argsorts], sort_of(ressort))
+        return self._extra[key]
+
     def has(self, name):
         return name in self._st.locals
 
@@ -455,6 +464,8 @@ class Exec:
         self.bounded = bounded
         self.names = {}
         self.defs = []
+        self._verify_ns = set()
+        self._verify_keep = []
 
     # ---------------- object allocation from schemas
 
@@ -562,7 +573,13 @@ class Exec:
         return ob
 
     def ns(self, st, extra=None):
-        return NS(self, st, extra)
+        n = NS(self, st, extra)
+        self._verify_ns.add(id(n))
+        self._verify_keep.append(n)
+        return n
+
+    def in_verify_ns(self, ns):
+        return id(ns) in self._verify_ns
 
     # ---------------- top level
 
@@ -584,6 +601,10 @@ class Exec:
         v = self.ns(st)
         for name, term in c.requires(v):
             st.assume(term)
+        if c.defs is not None:
+            # definitions of ghost functions (primitive recursion): conservative extensions, assumed at entry
+            for name, term in c.defs(v):
+                st.assume(term)
         cov = Obligation(self.qualname + "/cover/entry/requires-satisfiable", "cover", False, list(st.pc), 0, "")
         cov.defs = self.defs
         self.obligations.append(cov)
@@ -799,6 +820,11 @@ class Exec:
 
     def stmt_Assign(self, st, stmt):
         val = self.eval(st, stmt.value)
+        if len(stmt.targets) == 1 and isinstance(stmt.targets[0], ast.Name) and isinstance(val, SList) \
+                and not self.cur_fn_stack and self.contract.locals_types.get(stmt.targets[0].id) == "list[int]" \
+                and val.elem == "real" and z3.is_K(val.arr):
+            # a float64 array that only ever holds sample indices (exact below 2^53) is modelled as an int array
+            val = SList(z3.K(INT, z3.IntVal(0)), val.length, "int")
         for tgt in stmt.targets:
             self.assign(st, tgt, val, stmt)
         return [(st, "next", None)]
@@ -859,6 +885,8 @@ class Exec:
                            key=lambda n: (n.lineno, n.col_offset))
             for k, n in enumerate(loops):
                 self.loop_index[id(n)] = k
+        if stmt is None:
+            return None, None
         if id(stmt) not in self.loop_index:
             # a loop of an inlined callee: no sidecar invariant
             self.extra_loops = getattr(self, "extra_loops", 1000) + 1
@@ -1110,11 +1138,15 @@ class Exec:
     def _modset_stmt(self, st, s, loc, heap, ghost=True):
         if ghost:
             # ghost statements anchored at (sub)statements of this one are part of the loop body too
+            if not hasattr(self, "loop_index"):
+                self.next_loop_spec("probe", None, None)
             for n in ast.walk(s):
                 if isinstance(n, ast.stmt):
-                    a = self.stmt_anchor(n)
+                    anchors = [self.stmt_anchor(n)]
+                    if isinstance(n, (ast.While, ast.For)) and id(n) in self.loop_index:
+                        anchors.append("after:loop%d" % self.loop_index[id(n)])
                     for (ga, src) in self.contract.ghost:
-                        if ga == a:
+                        if ga in anchors:
                             for gs in ast.parse(src).body:
                                 self._modset_stmt(st, gs, loc, heap, ghost=False)
         for n in ast.walk(s):
@@ -1463,6 +1495,30 @@ class Exec:
                         return SList(z3.K(INT, L.realval(v)), n, "real")
                     if isinstance(v, int) or (L.is_z3(v) and z3.is_int(v)):
                         return SList(z3.K(INT, L.lift(v, INT)), n, "int")
+                # [E(t) for t in range(n)] with E mentioning t: a fresh array defined pointwise (ghost maps)
+                if isinstance(g.target, ast.Name):
+                    n = self.eval(st, g.iter.args[0])
+                    t = L.fresh_int("lc")
+                    saved = st.locals.get(g.target.id, UNBOUND)
+                    st.locals[g.target.id] = t
+                    n0, p0 = len(self.obligations), len(st.pc)
+                    v = self.eval(st, e.elt)
+                    del self.obligations[n0:]          # no safety obligations for the bound variable's body,
+                    del st.pc[p0:]                     # and nothing assumed about the bound variable either
+                    if saved is UNBOUND:
+                        st.locals.pop(g.target.id, None)
+                    else:
+                        st.locals[g.target.id] = saved
+                    if isinstance(v, float) or (L.is_z3(v) and z3.is_real(v)):
+                        elem, vz = "real", L.realval(v)
+                    elif isinstance(v, bool) or (L.is_z3(v) and z3.is_bool(v)):
+                        raise Unsupported("boolean ghost map")
+                    else:
+                        elem, vz = "int", L.lift(v, INT)
+                    arr = fresh("lc", z3.ArraySort(INT, sort_of(elem)))
+                    st.assume(z3.ForAll([t], z3.Implies(z3.And(t >= 0, t < L.lift(n, INT)), z3.Select(arr, t) == vz),
+                                        patterns=[z3.Select(arr, t)]))
+                    return SList(arr, n, elem)
         raise Unsupported("list comprehension at line %d" % e.lineno)
 
     def expr_Attribute(self, st, e):
@@ -1748,6 +1804,8 @@ class Exec:
                 a, b = self.eval(st, e.args[0]), self.eval(st, e.args[1])
                 return L.vmin(a, b) if nm == "min" else L.vmax(a, b)
             raise Unsupported("call to %s at line %d" % (nm, e.lineno))
+        if isinstance(f, ast.Name) and isinstance(st.locals.get(f.id), FnVal):
+            return st.locals[f.id](*[self.eval(st, a) for a in e.args])
         if isinstance(f, ast.Attribute):
             # module functions
             if isinstance(f.value, ast.Name) and f.value.id in self.aliases and f.value.id not in st.locals:
